@@ -1,4 +1,5 @@
 From Coq Require Import Extraction ExtrOcamlBasic NArith List.
 From MV Require Import Base.PyStr Inv.WildModel Inv.SphinxModel.
+From MV Require Import Inv.LinkModel.
 Extraction Language OCaml.
-Extraction "model.ml" N.succ N.to_nat match_with_wildcard pmatch create_regex filter_inventories inv_link to_sphinx filter_sphinx_inventories.
+Extraction "model.ml" N.succ N.to_nat match_with_wildcard pmatch create_regex filter_inventories inv_link to_sphinx filter_sphinx_inventories render_link_inventory.
